@@ -475,6 +475,11 @@ func (c *UDPConn) startBinding(bound *binding) (bindingState, bool) {
 func (c *UDPConn) bindChannel(bound *binding, startState bindingState) {
 	var err error
 	for range maxRetryAttempts {
+		// A closed socket must not start (or, after a stale nonce, restart) a
+		// ChannelBind: the request would reach the client's next allocation.
+		if c.isClosed() {
+			return
+		}
 		if err = c.bind(bound); !errors.Is(err, errTryAgain) {
 			break
 		}
